@@ -60,10 +60,29 @@ def _listing(d):
     return out
 
 
+class MinimalWriter:
+    """A stdout replacement that only has write() and flush() (tee / logger adapters, GUI hosts)."""
+
+    def __init__(self):
+        self.chunks = []
+
+    def write(self, s):
+        self.chunks.append(s)
+        return len(s)
+
+    def flush(self):
+        pass
+
+    def getvalue(self):
+        return "".join(self.chunks)
+
+
 class IOWindow:
-    def __init__(self, cwd=None, capture_fds=True):
+    def __init__(self, cwd=None, capture_fds=True, stdout_kind="stringio"):
+        """stdout_kind: 'stringio' | 'minimal' (write/flush only) | 'none' (sys.stdout is None, as under pythonw)"""
         self.cwd = cwd or os.getcwd()
         self.capture_fds = capture_fds
+        self.stdout_kind = stdout_kind
 
     def __enter__(self):
         install()
@@ -79,7 +98,9 @@ class IOWindow:
             self._d1, self._d2 = os.dup(1), os.dup(2)
             os.dup2(self._t1.fileno(), 1)
             os.dup2(self._t2.fileno(), 2)
-        sys.stdout, sys.stderr = self._bo, self._be
+        if self.stdout_kind == "minimal":
+            self._bo = MinimalWriter()
+        sys.stdout, sys.stderr = (None if self.stdout_kind == "none" else self._bo), self._be
         _state["events"] = self.events
         _state["active"] = True
         return self
